@@ -268,7 +268,7 @@ func explore(c *engine.Ctx, sc Scenario, bound int) {
 			return
 		}
 		if x.Horizon {
-			c.Violate("schedules", "livelock:"+sc.Name, map[string]interface{}{"trace": tail(engine.Describe(x))}, rec)
+			c.Violate("schedules", "livelock:"+sc.Name, map[string]interface{}{"trace_head": head(engine.Describe(x)), "trace": tail(engine.Describe(x))}, rec)
 			return
 		}
 		for _, t := range x.Threads {
@@ -304,6 +304,13 @@ func explore(c *engine.Ctx, sc Scenario, bound int) {
 	if e.Capped {
 		c.Capped(fmt.Sprintf("scenario %s bound %d stopped by budget after %d schedules", sc.Name, bound, e.Schedules))
 	}
+}
+
+func head(t []string) []string {
+	if len(t) > 200 {
+		return t[:200]
+	}
+	return t
 }
 
 func tail(t []string) []string {
